@@ -18,9 +18,12 @@ def parse(readme, patch):
             run = cand
             break
     needs = ""
-    m = re.search(r"(?is)needs[^\n:]*:\s*(.+?)(?:\n\s*\n|\n#|\n- \*\*|\n\*\*)", txt)
-    if m:
-        needs = " ".join(m.group(1).split())[:400]
+    for pat in [r"(?is)\*\*needs[^*]*\*\*:?\s*(.+?)(?:\n\s*\n|\n- \*\*|\n\*\*|\n#)", r"(?is)#+\s*what it needs[^\n]*\n+(.+?)(?:\n#|\Z)",
+                r"(?is)#+\s*needs[^\n]*\n+(.+?)(?:\n#|\Z)", r"(?is)needs[^\n:]{0,40}:\s*(.+?)(?:\n\s*\n|\n#)"]:
+        m = re.search(pat, txt)
+        if m and len(m.group(1).strip()) > 30:
+            needs = " ".join(m.group(1).split())[:400]
+            break
     mods = sorted({"/".join(l[6:].split("/")[:2]) for l in open(patch) if l.startswith("+++ b/modules/")})
     if "modules/coinswap" in mods and "modules/farm" not in mods:
         mods.append("modules/farm")
